@@ -111,6 +111,14 @@ class Wr(rbql_engine.RBQLOutputWriter):
 def run_one(text, table, btable, sched=None, tid=0, header=None, bheader=None, init=''):
     it = It([r[:] for r in table], sched, tid, header); w = Wr(sched, tid); warnings = []
     reg = None if btable is None else rbql_engine.ListTableRegistry([rbql_engine.ListTableInfo('b', [r[:] for r in btable], bheader)])
+    if ' from t1' in text:
+        # the input table comes from the registry (query(.., input_iterator=None, ..)): the FROM statement must be recognised
+        class Reg(rbql_engine.RBQLTableRegistry):
+            def get_iterator_by_table_id(self, table_id, single_char_alias):
+                if table_id == 't1' and single_char_alias == 'a': return It([r[:] for r in table], sched, tid, header)
+                if table_id == 'b' and btable is not None: return rbql_engine.TableIterator([r[:] for r in btable], bheader, True, single_char_alias)
+                return None
+        it, reg = None, Reg()
     try:
         rbql_engine.query(text, it, w, warnings, reg, init or '')
         res = {'rows': canon(w.rows), 'finished': w.finished, 'warnings': warnings, 'header': w.header}
@@ -176,6 +184,93 @@ elif mode == 'history':
 '''
 
 
+CSV_IMPL = r'''
+import sys, json, os, itertools
+from rbql import rbql_csv, rbql_engine
+mode = sys.argv[1]
+base, pool, seqs = json.loads(sys.stdin.read())
+
+def run_q(q, k):
+    name, text, d, cwd = q
+    outp = os.path.join(base, 'out_%s_%d.csv' % (mode, k))
+    saved = os.getcwd()
+    os.chdir(os.path.join(base, cwd))
+    w = []
+    try:
+        try:
+            rbql_csv.query_csv(text, os.path.join(base, d, 'in.csv'), ',', 'quoted', outp, ',', 'quoted', 'utf-8', w, False)
+            r = {'output': open(outp).read(), 'warnings': sorted(w)}
+        except Exception as e:
+            r = {'err': rbql_engine.exception_to_error_info(e)[0], 'msg': str(e).replace(base, '<base>')[:80]}
+    finally:
+        os.chdir(saved)
+        if os.path.exists(outp): os.remove(outp)
+    return r
+
+out = []
+k = 0
+for seq in seqs:
+    res = []
+    for qi in seq:
+        k += 1
+        res.append(run_q(pool[qi], k))
+    out.append(res)
+print(json.dumps(out))
+'''
+
+
+def csv_history_check(res, tier):
+    """the CSV front-end in one process: all sequences of <= 3 (4) query_csv calls from a pool in which the SAME relative join-table name
+    denotes different files (resolved against the directory of the input table, or against the working directory), plus failing calls;
+    each result must equal that of the same call alone in a fresh process"""
+    import tempfile, shutil, os
+    base = tempfile.mkdtemp(prefix='rbqlverif_c16csv_')
+    try:
+        for d, tag in (('d1', 'ONE'), ('d2', 'TWO'), ('d3', 'THREE')):
+            os.mkdir(os.path.join(base, d))
+            open(os.path.join(base, d, 'in.csv'), 'w').write('k1,%s-x\nk2,%s-y\n' % (tag, tag))
+            if d != 'd3':
+                open(os.path.join(base, d, 'j.csv'), 'w').write('k1,J-%s-1\nk2,J-%s-2\n' % (tag, tag))
+        os.mkdir(os.path.join(base, 'cwd2'))
+        open(os.path.join(base, 'cwd2', 'j.csv'), 'w').write('k1,J-CWD-1\nk2,J-CWD-2\n')
+        pool = [('join-d1', 'select a1, a2, b2 join j.csv on a1 == b1', 'd1', 'd3'), ('join-d2', 'select a1, a2, b2 join j.csv on a1 == b1', 'd2', 'd3'),
+                ('join-cwd', 'select a1, a2, b2 join j.csv on a1 == b1', 'd3', 'cwd2'), ('join-none', 'select a1, a2, b2 join j.csv on a1 == b1', 'd3', 'd3'),
+                ('plain-d1', 'select a2 where a1 == "k2"', 'd1', 'd3'), ('bad-key', 'select a1 join j.csv on a1 == b9', 'd1', 'd3'), ('syntax', 'select a1 where a1 = 1', 'd2', 'd3')]
+        maxlen = 3 if tier == 'quick' else 4
+        seqs = [list(sq) for L in range(1, maxlen + 1) for sq in itertools.product(range(len(pool)), repeat=L)]
+
+        def call(mode, sq):
+            r = subprocess.run([common.PY, '-W', 'ignore', '-c', CSV_IMPL, mode], input=json.dumps([base, pool, sq]).encode(), env=common.impl_env(), stdout=subprocess.PIPE, stderr=subprocess.PIPE, timeout=1800)
+            try:
+                return json.loads(r.stdout.decode().strip().split('\n')[-1])
+            except (ValueError, IndexError):
+                raise RuntimeError('C16 csv driver failed: ' + r.stderr.decode()[-500:])
+        with ThreadPoolExecutor(max_workers=common.NPROC) as ex:
+            solos = list(ex.map(lambda i: call('solo%d' % i, [[i]])[0][0], range(len(pool))))
+        res.sample({'csv_pool_fresh_results': [[p[0], s] for p, s in zip(pool, solos)]})
+        if len(set(json.dumps(s) for s in solos[:4])) < 4:
+            raise RuntimeError('C16 csv history: the four join scenarios are meant to differ in a fresh process: %s' % solos[:4])
+        outs = call('hist', seqs)
+        nbad = 0
+        for sq, rs in zip(seqs, outs):
+            res.evaluations += 1
+            res.nontrivial.add(('csv-history', tuple(sq)))
+            for pos, (qi, r) in enumerate(zip(sq, rs)):
+                if r != solos[qi]:
+                    nbad += 1
+                    if nbad <= 2:
+                        res.violations.append({'property': 'C16', 'impl': 'py', 'why': 'query_csv after other query_csv calls in the same process gave a result different from the fresh-process run',
+                                               'sequence': [pool[j] for j in sq], 'position': pos, 'fresh': solos[qi], 'in_sequence': r,
+                                               'files': 'd1/, d2/ hold in.csv and j.csv (different contents), d3/ only in.csv, cwd2/ only j.csv; each entry = (name, query, dir of the input table, working dir)',
+                                               'case_key': 'C16|csv-history|%s|%d' % (json.dumps([pool[j][0] for j in sq]), pos)})
+                    break
+        res.count('csv_histories', len(seqs))
+        res.count('csv_history_failures', nbad)
+        res.exhaustive['all sequences of <= %d query_csv calls from a pool of %d (same relative join name, different directories)' % (maxlen, len(pool))] = True
+    finally:
+        shutil.rmtree(base, ignore_errors=True)
+
+
 def impl(mode, arg, timeout=900):
     r = subprocess.run([common.PY, '-W', 'ignore', '-c', IMPL, mode], input=json.dumps(arg).encode(), env=common.impl_env(), stdout=subprocess.PIPE, stderr=subprocess.PIPE, timeout=timeout)
     try:
@@ -195,10 +290,16 @@ def generated_obligations(res):
         return 1, 0, ['generated obligation C16_no_shared_writes: rbql_engine.py could not be scanned: %s' % e]
     res.notes.append('shared-state footprint: %s' % json.dumps({k: r[k] for k in ('moduleLevelMutable', 'globalsDeclared', 'writtenOnQueryPath', 'classLevelMutable', 'mutableDefaults')}))
     problems = []
-    for k in ('writtenOnQueryPath', 'classLevelMutable', 'mutableDefaults'):
+    for k in ('writtenOnQueryPath', 'classLevelMutable', 'mutableDefaults', 'sharedInstancesUsed'):
         if r[k]:
             problems.append('generated obligation C16_no_shared_writes fails: %s = %s' % (k, r[k]))
-    return 1, (0 if problems else 1), problems
+    fe = shared_state_scan.scan_frontends(str(common.REPO / 'rbql-py' / 'rbql'))
+    res.notes.append('front-end footprint: %s' % json.dumps(fe))
+    fproblems = []
+    for k in ('writtenOnQueryPath', 'classLevelMutable', 'mutableDefaults', 'sharedInstancesUsed'):
+        if fe[k]:
+            fproblems.append('generated obligation C16_frontends_no_shared_writes fails: %s = %s' % (k, fe[k]))
+    return 2, (0 if problems else 1) + (0 if fproblems else 1), problems + fproblems
 
 
 def run(res, tier, seed):
@@ -213,6 +314,10 @@ def run(res, tier, seed):
         queries.append({'name': name, 'text': text, 'table': table, 'btable': BTABLE if needs_b else None, 'abstract': q})
     for t in PARSE_ERRORS:
         queries.append({'name': 'parse-error', 'text': t, 'table': table, 'btable': None, 'abstract': None})
+    # queries whose input table is named by FROM and comes from the registry, mixed with queries over a fixed input
+    for name, text, needs_b in (('from-select', 'select a2, a1 from t1 where a1 != "skip"', False), ('from-join', 'select a1, b2 from t1 join b on a1 == b1', True),
+                                ('from-missing', 'select a1 from nope', False)):
+        queries.append({'name': name, 'text': text, 'table': table, 'btable': BTABLE if needs_b else None, 'abstract': None})
     # the SAME query text in different contexts (column names mapping to other positions, another join table header,
     # another record width): whatever a run derives from its context must not survive into the next run
     ctx_table = [['k1', 'x;y', 'p'], ['k2', 'z', 'q']]
@@ -255,7 +360,8 @@ def run(res, tier, seed):
     res.exhaustive['all interleavings of %d pairs over %d records' % (len(pairs), nrec)] = (limit == 0)
     res.sample({'pair': [pairs[0][0]['text'], pairs[0][1]['text']], 'steps': [pairs[0][0]['steps'], pairs[0][1]['steps']], 'interleavings': outs[0]['n']})
     # (3) histories
-    hist_pool = [q for q in queries if q['name'] in ('select', 'update', 'aggregate', 'like', 'rterror', 'parse-error', 'sorted')][:7]
+    hist_pool = [q for q in queries if q['name'] in ('select', 'update', 'aggregate', 'like', 'rterror', 'parse-error', 'sorted')][:7] + \
+                [q for q in queries if q['name'] in ('from-select', 'from-join')]
     maxlen = 3 if tier == 'quick' else 4
     h = impl('history', [hist_pool, maxlen], 3000)
     res.evaluations += h['n']
@@ -273,13 +379,14 @@ def run(res, tier, seed):
         res.nontrivial.add(('ctx-history', k))
     res.exhaustive['all sequences of <= %d queries from a pool of %d same-text/different-context queries' % (ctx_len, len(ctx_pool))] = True
     # probes after failures at every stage (and after successes)
-    probe_pool = [q for q in queries if q['name'].startswith('probe-') or q['name'].startswith('fail-')] + [q for q in queries if q['name'] in ('select', 'aggregate')]
+    probe_pool = [q for q in queries if q['name'].startswith('probe-') or q['name'].startswith('fail-') or q['name'].startswith('from-')] + [q for q in queries if q['name'] in ('select', 'aggregate')]
     h3 = impl('history', [probe_pool, 2], 3000)
     res.evaluations += h3['n']
     res.count('probe_histories', h3['n'])
     for k in range(h3['n']):
         res.nontrivial.add(('probe-history', k))
     res.exhaustive['all sequences of <= 2 queries from a pool of %d stage failures, probes of interpreter-wide state and two ordinary queries' % len(probe_pool)] = True
+    csv_history_check(res, tier)
     for bd in h['bad'][:2] + h2['bad'][:2] + h3['bad'][:2]:
         res.violations.append({'property': 'C16', 'impl': 'py', 'why': 'a query run after other queries gave a result different from the fresh-interpreter run', 'detail': bd,
                                'case_key': 'C16|history|%s|%d' % (json.dumps(bd['sequence']), bd['position'])})
